@@ -1292,6 +1292,8 @@ func vshSynCases(cfgs []vshCfg, quick, withUnknown bool) []vshCase { //nolint:go
 	opD := vshOp{Side: "X", Op: "dc"}
 	opS := vshOp{Side: "X", Op: "stop", Idx: 0}
 	opN := vshOp{Side: "X", Op: "negs"}
+	// a generated but never applied local offer: it hands provisional mids to the transceivers that have none
+	opO := vshOp{Side: "X", Op: "offer"}
 	none := [][]vshOp{{}}
 	var out []vshCase
 	for _, cfg := range cfgs {
@@ -1311,17 +1313,17 @@ func vshSynCases(cfgs []vshCfg, quick, withUnknown bool) []vshCase { //nolint:go
 					pres, posts := none, [][]vshOp{{opD}}
 					switch {
 					case n == 1 && !unknown && bundle == "" && quick:
-						pres = [][]vshOp{{}, {opA}}
+						pres = [][]vshOp{{}, {opA}, {opV, opV, opO}}
 						posts = vshSeqs([]vshOp{opA, opV, opD}, 0, 2)
 					case n == 1 && !unknown && bundle == "":
-						pres = [][]vshOp{{}, {opA}, {opV}, {opD}}
+						pres = [][]vshOp{{}, {opA}, {opV}, {opD}, {opV, opV, opO}, {opA, opV, opO}, {opV, opO, opV}}
 						posts = vshSeqs([]vshOp{opA, opV, opD, opS}, 0, 2)
 					case n == 1:
 						posts = [][]vshOp{{}, {opD}, {opA, opD}}
 					case n == 2 && !unknown && bundle == "" && quick:
 						posts = [][]vshOp{{}, {opD}, {opA}, {opA, opD}}
 					case n == 2 && !unknown && bundle == "":
-						pres = [][]vshOp{{}, {opA}}
+						pres = [][]vshOp{{}, {opA}, {opV, opV, opO}}
 						posts = vshSeqs([]vshOp{opA, opV, opD, opS}, 0, 2)
 					case n == 2 && unknown && bundle != "":
 						continue
